@@ -109,6 +109,11 @@ func counterAgreement(c *Ctx, rule string) {
 							if call, ok := as.Rhs[0].(*ast.CallExpr); ok && len(call.Args) == 3 {
 								stores = append(stores, store{types.ExprString(ix2.X), types.ExprString(ix2.Index), types.ExprString(ix.Index),
 									types.ExprString(call.Args[0]), types.ExprString(call.Args[1]), types.ExprString(call.Args[2]), as.Pos(), b})
+							} else if nt, isNamed := info.TypeOf(as.Rhs[0]).(*types.Named); isNamed && nt.Obj().Name() == "Position" && nt.Obj().Pkg() == pp.Types {
+								// a position held in a variable or field (p.tgt): its index, line and column are its fields
+								v := types.ExprString(as.Rhs[0])
+								stores = append(stores, store{types.ExprString(ix2.X), types.ExprString(ix2.Index), types.ExprString(ix.Index),
+									v + ".Index", v + ".Line", v + ".Col", as.Pos(), b})
 							}
 						}
 					}
@@ -138,7 +143,31 @@ func counterAgreement(c *Ctx, rule string) {
 				})
 			}
 		}
-		visit(fd.Body)
+		// the unit: Add and the package-local functions it is split into (collect the positions, then record them)
+		unit := []*ast.FuncDecl{fd}
+		declOf := map[types.Object]*ast.FuncDecl{}
+		for _, f := range allFuncDecls(pp) {
+			declOf[info.Defs[f.Name]] = f
+		}
+		for k := 0; k < len(unit) && len(unit) < 6; k++ {
+			ast.Inspect(unit[k].Body, func(n ast.Node) bool {
+				if call, ok := n.(*ast.CallExpr); ok {
+					if h := declOf[calleeOf(info, call)]; h != nil && h.Body != nil && h.Name.Name != "NewPosition" {
+						seen := false
+						for _, u := range unit {
+							seen = seen || u == h
+						}
+						if !seen {
+							unit = append(unit, h)
+						}
+					}
+				}
+				return true
+			})
+		}
+		for _, u := range unit {
+			visit(u.Body)
+		}
 		mirrored := len(stores) >= 2
 		why := ""
 		for _, s := range stores {
@@ -162,10 +191,32 @@ func counterAgreement(c *Ctx, rule string) {
 			cols = appendUniq(cols, s.col)
 			idxs = appendUniq(idxs, s.i)
 		}
+		// the positions are built from the counters: NewPosition(index, line, col) wherever the unit builds one
+		var fromCalls bool
+		var ccols, cidxs []string
+		for _, u := range unit {
+			ast.Inspect(u.Body, func(n ast.Node) bool {
+				if call, ok := n.(*ast.CallExpr); ok && len(call.Args) == 3 {
+					if fn := calleeOf(info, call); fn != nil && fn.Name() == "NewPosition" && fn.Pkg() == pp.Types {
+						fromCalls = true
+						ccols = appendUniq(ccols, types.ExprString(call.Args[2]))
+						cidxs = appendUniq(cidxs, types.ExprString(call.Args[0]))
+					}
+				}
+				return true
+			})
+		}
+		if fromCalls {
+			cols, idxs = ccols, cidxs
+		}
 		counters := append(append([]string{}, cols...), idxs...)
 		incBy := map[string][]string{}
 		incOne := map[string]int{}
-		ast.Inspect(fd.Body, func(n ast.Node) bool {
+		unitBody := &ast.BlockStmt{}
+		for _, u := range unit {
+			unitBody.List = append(unitBody.List, u.Body)
+		}
+		ast.Inspect(unitBody, func(n ast.Node) bool {
 			switch n := n.(type) {
 			case *ast.AssignStmt:
 				if n.Tok == token.ADD_ASSIGN && len(n.Lhs) == 1 {
@@ -198,7 +249,7 @@ func counterAgreement(c *Ctx, rule string) {
 				if by != "" && !strings.Contains(by, ",") {
 					// `srcCol += src.Range.From.Col` (first-line offset) mentions a non-local path; only plain locals count
 					if lenVar == "" || lenVar == by {
-						if isRuneLenVar(fd, by) {
+						if isRuneLenVar(&ast.FuncDecl{Body: unitBody}, by) {
 							lenVar = by
 							found = true
 						}
@@ -225,7 +276,7 @@ func counterAgreement(c *Ctx, rule string) {
 		// the rune length is the encoded length: it may only be replaced where it is itself invalid (negative)
 		if lenVar != "" {
 			okLen, whyLen := true, ""
-			ast.Inspect(fd.Body, func(n ast.Node) bool {
+			ast.Inspect(unitBody, func(n ast.Node) bool {
 				is, ok := n.(*ast.IfStmt)
 				if !ok {
 					return true
@@ -311,17 +362,70 @@ func counterAgreement(c *Ctx, rule string) {
 		c.check(ok, rule, key+"|position-tracking", c.pos(wfd.Pos()), "Index and Col advance by "+incBy["Col"]+"; newline increments Line and resets Col",
 			fmt.Sprintf("range writer position tracking changed (Col += %q, Index += %q, newline: Line++ %v, Col=0 %v): every returned range — and so every source-map entry — would be wrong", incBy["Col"], incBy["Index"], nlInc, nlReset))
 		// From is captured before the loop, To after it
+		// (the result variable's fields are assigned, or the positions are held in locals and put into the Range literal
+		// that the final return builds)
 		fromOK, toOK := false, false
+		loopIdx := -1
 		for i, st := range wfd.Body.List {
-			if as, ok := st.(*ast.AssignStmt); ok && len(as.Lhs) == 1 {
-				switch fieldTail(as.Lhs[0]) {
-				case "From":
-					if i == 0 {
-						fromOK = true
+			switch st.(type) {
+			case *ast.RangeStmt, *ast.ForStmt:
+				if loopIdx < 0 {
+					loopIdx = i
+				}
+			}
+		}
+		mentionsCurrent := func(e ast.Expr) bool {
+			found := false
+			ast.Inspect(e, func(n ast.Node) bool {
+				if se, ok := n.(*ast.SelectorExpr); ok && se.Sel.Name == "Current" {
+					found = true
+				}
+				return true
+			})
+			return found
+		}
+		heldBefore, heldAfter := map[types.Object]bool{}, map[types.Object]bool{}
+		for i, st := range wfd.Body.List {
+			if loopIdx < 0 {
+				break
+			}
+			switch st := st.(type) {
+			case *ast.AssignStmt:
+				if len(st.Lhs) != 1 || len(st.Rhs) != 1 || !mentionsCurrent(st.Rhs[0]) {
+					continue
+				}
+				switch {
+				case fieldTail(st.Lhs[0]) == "From" && i < loopIdx:
+					fromOK = true
+				case fieldTail(st.Lhs[0]) == "To" && i > loopIdx:
+					toOK = true
+				default:
+					if id, ok := st.Lhs[0].(*ast.Ident); ok {
+						if i < loopIdx {
+							heldBefore[gp.TypesInfo.ObjectOf(id)] = true
+						} else if i > loopIdx {
+							heldAfter[gp.TypesInfo.ObjectOf(id)] = true
+						}
 					}
-				case "To":
-					if i >= len(wfd.Body.List)-2 {
-						toOK = true
+				}
+			case *ast.ReturnStmt:
+				if i < loopIdx || len(st.Results) == 0 {
+					continue
+				}
+				if cl, ok := ast.Unparen(st.Results[0]).(*ast.CompositeLit); ok {
+					for _, el := range cl.Elts {
+						kv, ok := el.(*ast.KeyValueExpr)
+						if !ok {
+							continue
+						}
+						k, _ := kv.Key.(*ast.Ident)
+						id, isID := ast.Unparen(kv.Value).(*ast.Ident)
+						switch {
+						case k != nil && k.Name == "From" && isID && heldBefore[gp.TypesInfo.ObjectOf(id)]:
+							fromOK = true
+						case k != nil && k.Name == "To" && (mentionsCurrent(kv.Value) || isID && heldAfter[gp.TypesInfo.ObjectOf(id)]):
+							toOK = true
+						}
 					}
 				}
 			}
@@ -357,6 +461,15 @@ func isRuneLenVar(fd *ast.FuncDecl, name string) bool {
 			if id, ok := as.Lhs[0].(*ast.Ident); ok && id.Name == name {
 				if call, ok := as.Rhs[0].(*ast.CallExpr); ok {
 					fn := types.ExprString(call.Fun)
+					// max(utf8.RuneLen(r), 1): the encoded length, 1 for an invalid rune (RuneLen is -1 or 1…4)
+					if fn == "max" && len(call.Args) == 2 {
+						for k, a := range call.Args {
+							if inner, ok := ast.Unparen(a).(*ast.CallExpr); ok && types.ExprString(call.Args[1-k]) == "1" {
+								call, fn = inner, types.ExprString(inner.Fun)
+								break
+							}
+						}
+					}
 					if fn == "utf8.RuneLen" || fn == "utf8.EncodeRune" {
 						res = true
 					}
